@@ -205,7 +205,7 @@ func runSeq(o flightObj, script []scripted) []observed {
 func (d *driver) stageFlights() {
 	nrand := 6
 	if d.tier == "thorough" {
-		nrand = 60
+		nrand = 150
 	}
 	mk := func(key string, ok bool, i int) scripted {
 		if ok {
@@ -547,7 +547,7 @@ func (d *driver) stageOfflineFixtures() {
 	}
 	nrand := 10
 	if d.tier == "thorough" {
-		nrand = 150
+		nrand = 400
 	}
 	for i := 0; i < nrand; i++ {
 		var es []fixEntry
